@@ -10,9 +10,13 @@ DRIVER = "Driver/C53.lean"
 REQUIRED_THEOREMS = ["ca_word_layout", "cs_held_until_end", "latency_before_data",
                      "drive_only_in_command_and_write", "never_drives_while_memory_drives"]
 RULE = ("cases = random transaction scripts: memory/register x read/write x wrapped/linear, addresses with "
-        "boundary patterns, start_transfer held 1-8 cycles or permanently, final_word at the first / a later / "
-        "no word, behavioural memory: rwds.i patterns 00/01/10/11 during reads (aligned, clock-inverted, "
-        "stalling), random rwds.i at LATCH_RWDS, random dq.i; plus unstructured random inputs")
+        "boundary patterns, start_transfer held 1-8 cycles or permanently, final_word on word 1..6 of the burst (also "
+        "early, and raised on cycles without a word), every transaction followed by the next after 2-5 cycles; "
+        "behavioural memory: rwds.i during reads aligned (10), clock-inverted (01 then 00, optional gaps; 01 01 01 ... "
+        "bursts with a word per cycle), aligned and split words mixed in one burst, stalling, random; random rwds.i at "
+        "LATCH_RWDS, random dq.i; plus unstructured random inputs.  The monitor decides from the inputs alone where each "
+        "transaction starts and ends (final word of either phase) and requires idle + cs/clk_en released two cycles "
+        "after the final word and a correct command-address word for the request that follows")
 ASSUMPTIONS = [
     "HyperRAMInterface core only (phy = HyperBusPHY record); the vendor-primitive HyperRAMPHY (ODDR/IDDR/DELAY "
     "Instances, FFSynchronizers) is outside the model",
@@ -68,36 +72,64 @@ def make_stimulus(desc, rng):
     # scripted transactions; the FSM is tracked only to shape the memory's behaviour
     while len(rows) < L:
         addr, reg, wr, sp = _addr(rng), rng.below(2), rng.below(2), rng.below(2)
+        if rng.chance(35):
+            wr = 0                     # more reads: the memory's RWDS behaviour matters only there
         for _ in range(rng.range(0, 4)):
             rows.append([_addr(rng), rng.below(2), rng.below(2), rng.below(2), 0, rng.below(2), rng.bits(16), rng.bits(16), rng.below(4)])
         hold = rng.choice([1, 1, 2, 3, 8, 10 ** 6]) if kind != 2 else 10 ** 6
-        nwords = rng.choice([1, 1, 2, 3, 6])
-        mem_mode = rng.choice(["aligned", "inverted", "stall", "random"])
+        nwords = rng.choice([1, 1, 2, 3, 4, 5, 6])          # the word that carries final_word (1 = the first)
+        mem_mode = rng.choice(["aligned", "inverted", "inverted", "inverted-burst", "mixed", "stall", "random"])
+        early_final = rng.chance(15)                        # final_word may also come before word `nwords`
         # cycles: 0 = IDLE+start, 1 = LATCH_RWDS, 2-4 = command, then latency/data
-        total = 5 + (1 if (reg and wr) else 13 + nwords * (1 if wr else rng.choice([1, 2, 3]))) + rng.range(0, 3)
+        first_data = 5 if (reg and wr) else 18
         words_seen = 0
         ph = 0
-        for t in range(total):
+        gap = rng.choice([0, 0, 1, 2])                      # idle cycles of the memory between inverted words
+        prev_rw = 0
+        t = 0
+        done_at = None
+        while True:
             start = 1 if t < hold else 0
             keep = rng.chance(50)
             a2 = addr if (t == 0 or keep) else _addr(rng)
             r2, w2, s2 = (reg, wr, sp) if (t == 0 or keep) else (rng.below(2), rng.below(2), rng.below(2))
-            in_data = t >= 18 if not (reg and wr) else t >= 5
+            in_data = t >= first_data
             rw = rng.below(4)
             if in_data and not wr:
                 if mem_mode == "aligned":
                     rw = 2
                 elif mem_mode == "inverted":
-                    rw = 1 if (ph % 2 == 0) else 0      # 01 then 0x: data split over two cycles
-                    ph += 1
+                    # 01 then 00: the word is split over two sync cycles; optional 00 gaps between words
+                    rw = 1 if ph == 0 else 0
+                    ph = (ph + 1) % (2 + gap)
+                elif mem_mode == "inverted-burst":
+                    rw = 1                                  # 01 01 01 ...: from the second cycle on a word per cycle
+                elif mem_mode == "mixed":
+                    # aligned and split words in one burst
+                    rw = rng.choice([0, 1, 0, 1, 2]) if (prev_rw & 1) else rng.choice([2, 1, 1, 0, 3])
                 elif mem_mode == "stall":
                     rw = 2 if rng.chance(40) else rng.choice([0, 3, 1])
             fw = rng.below(2)
             if in_data:
-                if rw == 2 or wr:
+                word = bool(wr) or rw == 2 or ((rw >> 1) == 0 and (prev_rw & 1) == 1 and t > first_data)
+                if word:
                     words_seen += 1
-                fw = 1 if words_seen >= nwords else (1 if rng.chance(5) else 0)
+                    fw = 1 if words_seen >= nwords else (1 if (early_final and rng.chance(20)) else 0)
+                    if fw and done_at is None:
+                        done_at = t
+                else:
+                    fw = 1 if rng.chance(30) else 0        # final_word without a word: must be ignored by reads
+                prev_rw = rw
             rows.append([a2, r2, w2, s2, start, fw, rng.bits(16), rng.bits(16), rw])
+            t += 1
+            if done_at is not None or (reg and wr and t > first_data) or t > first_data + 40:
+                break
+        # RECOVERY + a short pause (0: the next request arrives in the first idle cycle)
+        for _ in range(rng.choice([2, 2, 2, 3, 5])):
+            start = 1 if t < hold else 0
+            rows.append([_addr(rng), rng.below(2), rng.below(2), rng.below(2), start, rng.below(2), rng.bits(16),
+                         rng.bits(16), rng.below(4)])
+            t += 1
     return rows[:L + 40]
 
 
@@ -107,6 +139,12 @@ def ca_words(addr, reg, wr, single_page):
 
 
 def monitor(stim, rows):
+    """The property on the observed trace.  The monitor keeps its OWN notion of where a transaction starts and
+    ends, from the inputs only (request in an idle cycle; a register write is one word; a memory write ends with
+    the word written while final_word is high; a read ends with the word DELIVERED BY THE MEMORY while final_word is
+    high, a word being `rwds.i == 0b10` or, with inverted clock phase, `rwds.i[0] == 1` in one cycle followed by
+    `rwds.i[1] == 0` in the next) and requires the gateware to follow: idle / chip select released the documented
+    number of cycles after the final word, and the next request served with its own command-address word."""
     fails, tags = [], set()
 
     def fail(t, sig, what):
@@ -117,26 +155,46 @@ def monitor(stim, rows):
     O = {n: k for k, n in enumerate(NAMES_OUT)}
     drive_dq_ok = set()     # cycles in which dq.e may (and must) be 1
     drive_rwds_ok = set()
-    t = 0
+    t = 0                   # the interface is (expected to be) idle in cycle t; true at reset
     horizon = T
+    after = None            # how the previous transaction ended (coverage of "followed by another transaction")
+    lost = False
     while t < T:
-        idle = rows[t][O["idle"]]
+        if rows[t][O["idle"]] != 1:
+            lost = True
+            fail(t, "not-idle-after-end", "idle=0 in cycle %d although the previous transaction%s has ended: the "
+                 "interface cannot accept the next request" % (t, " (%s)" % after if after else ""))
+        if rows[t][O["read_ready"]] or rows[t][O["write_ready"]]:
+            fail(t, "strobe-outside-data", "data strobe in cycle %d outside any transaction" % t)
         start = stim[t][4]
-        if not (idle and start):
+        if not start:
+            # no request: chip select released (registered, so visible one cycle later)
+            if t + 1 < T and rows[t + 1][O["cs"]] != 0:
+                fail(t + 1, "cs-not-released", "cs=1 in cycle %d although no transaction is in progress%s"
+                     % (t + 1, " (previous one: %s)" % after if after else ""))
             t += 1
             continue
         addr, reg, wr, sp = stim[t][0], stim[t][1], stim[t][2], stim[t][3]
         if t + 7 >= T:
             horizon = t
             break
-        tags.add("%s-%s" % ("reg" if reg else "mem", "write" if wr else "read"))
+        kindtag = "%s-%s" % ("reg" if reg else "mem", "write" if wr else "read")
+        tags.add(kindtag)
+        if after:
+            tags.add("txn-after-" + after)
         want = ca_words(addr, reg, wr, sp)
         for k in range(3):
             u = t + 3 + k
             drive_dq_ok.add(u)
             if rows[u][O["dq_e"]] != 1 or rows[u][O["dq_o"]] != want[k]:
-                fail(u, "ca-word", "command word %d for address %#x reg=%d write=%d single_page=%d: dq.e=%d dq.o=%#06x, "
-                     "expected %#06x" % (k, addr, reg, wr, sp, rows[u][O["dq_e"]], rows[u][O["dq_o"]], want[k]))
+                fail(u, "ca-word", "command word %d for address %#x reg=%d write=%d single_page=%d%s: dq.e=%d dq.o=%#06x, "
+                     "expected %#06x" % (k, addr, reg, wr, sp, " (request following a transaction that ended with %s)" % after
+                                         if after else "", rows[u][O["dq_e"]], rows[u][O["dq_o"]], want[k]))
+        if lost:
+            # the gateware did not end the previous transaction where it had to: the request that follows has been
+            # judged (command-address word); beyond it the trace no longer lines up with any expectation
+            horizon = min(horizon, t + 6)
+            break
         first_data = t + 5 if (reg and wr) else t + 18
         # no data strobe before the latency has elapsed
         for u in range(t + 1, min(first_data, T)):
@@ -148,14 +206,21 @@ def monitor(stim, rows):
             break
         if wr and not rows[first_data][O["write_ready"]]:
             fail(first_data, "latency-too-long", "write data phase did not start %d cycles after the request" % (first_data - t))
-        # data phase until the FSM reports idle again
+        # data phase: one row per cycle until the word that ends the transaction (decided from the inputs)
         u = first_data
-        ended = False
+        end_word = None         # cycle of the final word
+        nword = 0
+        how = None
         while u < T:
-            if rows[u][O["idle"]]:
-                ended = True
-                break
-            if rows[u][O["write_ready"]]:
+            rw = stim[u][8]
+            if wr:
+                word, split = True, False
+            else:
+                split = rw != 2 and (rw >> 1) == 0 and u > first_data and (stim[u - 1][8] & 1) == 1
+                word = rw == 2 or split
+            if wr:
+                if not rows[u][O["write_ready"]] or rows[u][O["read_ready"]]:
+                    fail(u, "write-ready", "write data cycle %d: write_ready=%d read_ready=%d" % (u, rows[u][O["write_ready"]], rows[u][O["read_ready"]]))
                 tags.add("write-word")
                 if u + 1 < T:
                     drive_dq_ok.add(u + 1)
@@ -163,20 +228,53 @@ def monitor(stim, rows):
                         fail(u + 1, "write-data", "dq.o=%#06x after write_ready with write_data=%#06x" % (rows[u + 1][O["dq_o"]], stim[u][6]))
                     if not reg:
                         drive_rwds_ok.add(u + 1)
-            if rows[u][O["read_ready"]]:
-                tags.add("read-word-direct" if stim[u][8] == 2 else "read-word-inverted")
-                if stim[u][8] == 2 and rows[u][O["read_data"]] != stim[u][7]:
-                    fail(u, "read-data", "read_data=%#06x, memory drove %#06x" % (rows[u][O["read_data"]], stim[u][7]))
+            else:
+                if rows[u][O["write_ready"]]:
+                    fail(u, "write-ready", "write_ready during a read (cycle %d)" % u)
+                if rows[u][O["read_ready"]] != (1 if word else 0):
+                    fail(u, "read-ready", "read_ready=%d in cycle %d with rwds.i=%d after rwds.i=%d: the memory %s"
+                         % (rows[u][O["read_ready"]], u, rw, stim[u - 1][8], "delivered a word" if word else "delivered nothing"))
+                if word:
+                    tags.add("read-word-inverted" if split else "read-word-direct")
+                    data = (((stim[u - 1][7] & 0xFF) << 8) | (stim[u][7] >> 8)) if split else stim[u][7]
+                    if rows[u][O["read_data"]] != data:
+                        fail(u, "read-data", "read_data=%#06x, memory drove %#06x (%s)" % (rows[u][O["read_data"]], data,
+                             "second byte in this cycle, first byte in the previous one" if split else "aligned"))
+            if word:
+                nword += 1
+                if (reg and wr) or stim[u][5]:
+                    end_word = u
+                    how = "reg-write" if (reg and wr) else ("write-final" if wr else ("read-final-inverted" if split else "read-final-aligned"))
+                    break
             u += 1
-        # chip select: asserted from the cycle after the request until the transaction has ended
-        for v in range(t + 1, min(u, T)):
-            if rows[v][O["cs"]] != 1:
-                fail(v, "cs-dropped", "cs low %d cycles into the transaction (ends after %d)" % (v - t, u - t))
-        if ended:
-            tags.add("txn-%d-cycles" % min(40, (u - t) // 10 * 10))
-        if not ended:
+        if end_word is None:
             horizon = min(horizon, t)
-        t = u if ended else T
+            # chip select and not-idle until the end of the trace
+            for v in range(t + 1, T):
+                if rows[v][O["cs"]] != 1:
+                    fail(v, "cs-dropped", "cs low %d cycles into a transaction that has not ended" % (v - t))
+                if rows[v][O["idle"]]:
+                    fail(v, "idle-during-transaction", "idle=1 %d cycles into a transaction that has not seen its final word" % (v - t))
+            break
+        tags.add(how)
+        tags.add("%s-pos-%d" % (how, min(nword, 7)) if how.startswith("read-final") else "final-word-pos-%d" % min(nword, 7))
+        # a register write ends straight away; everything else takes one recovery cycle:
+        # final word in cycle u -> (recovery u+1) -> idle and cs released in cycle u+2
+        nxt = end_word + 1 if how == "reg-write" else end_word + 2
+        for v in range(t + 1, min(nxt, T)):
+            if rows[v][O["cs"]] != 1:
+                fail(v, "cs-dropped", "cs low %d cycles into the transaction (ends after %d)" % (v - t, nxt - t))
+            if rows[v][O["idle"]]:
+                fail(v, "idle-during-transaction", "idle=1 %d cycles into the transaction (ends after %d)" % (v - t, nxt - t))
+        if how != "reg-write" and nxt < T:
+            if rows[nxt][O["cs"]] != 0:
+                fail(nxt, "cs-not-released", "cs still 1 two cycles after the final word (%s, word %d of the burst, cycle %d)"
+                     % (how, nword, end_word))
+            if rows[nxt][O["clk_en"]] != 0:
+                fail(nxt, "clk-not-stopped", "clk_en still 1 two cycles after the final word (%s, cycle %d)" % (how, end_word))
+        tags.add("txn-%d-cycles" % min(40, (nxt - t) // 10 * 10))
+        after = how
+        t = nxt
     for v in range(horizon):
         de, re_ = rows[v][O["dq_e"]], rows[v][O["rwds_e"]]
         if de and v not in drive_dq_ok:
